@@ -197,17 +197,6 @@ func mutexCall(e ast.Expr, recv string) (field, method string, ok bool) {
 
 var lockish = map[string]bool{"Lock": true, "Unlock": true, "RLock": true, "RUnlock": true, "TryLock": true, "TryRLock": true}
 
-func countCalls(n ast.Node) int {
-	c := 0
-	ast.Inspect(n, func(x ast.Node) bool {
-		if _, ok := x.(*ast.CallExpr); ok {
-			c++
-		}
-		return true
-	})
-	return c
-}
-
 // walkWithStack calls f(node, stack of ancestors (outermost first, not including node)).
 func walkWithStack(root ast.Node, f func(n ast.Node, stack []ast.Node)) {
 	var stack []ast.Node
@@ -398,14 +387,53 @@ func analyseServe(res *result) {
 		}
 	}
 	res.MutexField = field
-	res.LockFirst = lockIdx == 0 && pointer && fieldTypeOk
-	res.UnlockDeferred = lockIdx == 0 && deferIdx == 1
+	res.LockFirst = lockIdx >= 0 && pointer && fieldTypeOk // what precedes it is accounted for in sf_calls_before_lock
+	res.UnlockDeferred = lockIdx >= 0 && deferIdx == lockIdx+1
 	res.UnlockPresent = lockIdx >= 0 && (deferIdx > lockIdx || (tailIdx > lockIdx && !hasReturn))
+	// what runs before the Lock: only the receipt log line is tolerated; a handler lookup / invocation there is the defect
+	// "dispatch before the lock"; anything else is a shape this translator does not know.
+	dispatchCalls := func(n ast.Node) int {
+		c := 0
+		ast.Inspect(n, func(x ast.Node) bool {
+			call, ok := x.(*ast.CallExpr)
+			if !ok {
+				return true
+			}
+			switch f := call.Fun.(type) {
+			case *ast.SelectorExpr:
+				if f.Sel.Name == "handlerFor" || f.Sel.Name == "NotFoundError" {
+					c++
+				}
+			case *ast.Ident:
+				if f.Obj != nil && f.Obj.Kind == ast.Var { // a function value held in a local variable: the handler
+					c++
+				}
+			case *ast.IndexExpr: // mi.HandlerMap[key](w, r)
+				c++
+			}
+			return true
+		})
+		return c
+	}
 	if lockIdx < 0 {
-		res.CallsBeforeLock = countCalls(serve.Body)
+		res.CallsBeforeLock = dispatchCalls(serve.Body)
+		if res.CallsBeforeLock == 0 {
+			fatal("unrecognised shape: ServeHTTP neither locks nor dispatches")
+		}
 	} else {
 		for _, s := range stmts[:lockIdx] {
-			res.CallsBeforeLock += countCalls(s)
+			if d := dispatchCalls(s); d > 0 {
+				res.CallsBeforeLock += d
+				continue
+			}
+			if es, ok := s.(*ast.ExprStmt); ok {
+				if call, isCall := es.X.(*ast.CallExpr); isCall {
+					if sel, isSel := call.Fun.(*ast.SelectorExpr); isSel && sel.Sel.Name == "logRequestReceipt" {
+						continue // logging only; reported in serve_body_statements
+					}
+				}
+			}
+			fatal("%s: unrecognised statement before the Lock in ServeHTTP", pos(s))
 		}
 	}
 
